@@ -414,6 +414,22 @@ def iso_cases():
         ("copy-of-setlist-then-remove", [sl("k1", ["a", "b", "c"]), cp, {"op": "remove", "k": "k1", "v": "b"}] + both, False, False),
         ("copy-then-setlist-source", abc + [cp, sl("k1", []), A("k1", "q")] + both, False, False),
         ("copy-then-delete-source", abc + [cp, {"op": "del", "k": "k1"}] + both, False, False),
+        # empty lists with spare capacity: a caller's scratch buffer buf[:0] handed in, and a list emptied by RemoveFromList
+        # (stored with capacity) handed out — the store's next in-place append and the caller's own append share cell 0
+        ("setlist-empty-buffer-reused-then-append", [dict(sl("k1", []), cap=4), A("k1", "a"), GL("k1"), A("k1", "b"), GL("k1")], True, False),
+        ("setlist-short-buffer-reused-then-append", [dict(sl("k1", ["a"]), cap=3), A("k1", "b"), GL("k1"), A("k1", "c"), GL("k1")], True, False),
+        ("set-empty-buffer-reused-then-append", [{"op": "set", "k": "k1", "v": [], "ttl": 0, "cap": 4}, A("k1", "a"), GL("k1")], True, False),
+        ("setnx-empty-buffer-reused-then-append", [{"op": "setnx", "k": "k1", "v": [], "ttl": 0, "cap": 4}, A("k1", "a"), GL("k1")], True, False),
+        ("cas-empty-buffer-reused-then-append", [{"op": "cas", "k": "k1", "old": None, "v": [], "ttl": 0, "cap": 4}, A("k1", "a"), GL("k1")], True, False),
+        ("emptied-list-answer-reused-then-append", abc + [{"op": "remove", "k": "k1", "v": x} for x in "abc"]
+         + [GL("k1"), A("k1", "x"), GL("k1"), A("k1", "y"), GL("k1")], False, True),
+        ("emptied-setlist-answer-reused-then-append", [sl("k1", ["a", "a", "a"]), {"op": "remove", "k": "k1", "v": "a"}, GL("k1"),
+                                                       A("k1", "x"), GL("k1")], False, True),
+        ("get-emptied-list-answer-reused-then-append", abc + [{"op": "remove", "k": "k1", "v": x} for x in "abc"]
+         + [{"op": "get", "k": "k1"}, A("k1", "x"), GL("k1")], False, True),
+        ("copy-of-emptied-list-then-append-to-both", abc + [{"op": "remove", "k": "k1", "v": x} for x in "abc"]
+         + [cp, A("k1", "x"), A("k2", "y")] + both, False, False),
+        ("drain-then-getlist-answer-reused-then-append", abc + [{"op": "drain", "k": "k1"}, GL("k1"), A("k1", "n"), GL("k1")], False, True),
         # (d) iterate-and-remove
         ("drain-appended-list", abc + [{"op": "drain", "k": "k1"}, GL("k1"), A("k1", "n"), GL("k1")], False, False),
         ("drain-setlist-with-duplicates", [sl("k1", ["a", "b", "a", "c", "d"]), {"op": "drain", "k": "k1"}, GL("k1")], False, False),
@@ -507,6 +523,12 @@ def torn_cases():
     """readers of a large hash / list racing writers that mutate it in place; run in a child process of the harness"""
     return [{"mode": "torn", "kind": kd, "reader": rd, "fill": 20000, "reads": 300}
             for kd, rd in (("hash", "get"), ("hash", "getallhash"), ("hash", "getlist"), ("list", "get"), ("list", "getlist"))]
+
+
+def incr_cases():
+    """concurrent increments of ONE existing counter on every backend (child process): returned values distinct, none lost"""
+    return [{"mode": "incr", "backend": "mem", "fill": 16, "reads": 3000}, {"mode": "incr", "backend": "hybrid", "fill": 16, "reads": 3000},
+            {"mode": "incr", "backend": "redis", "fill": 8, "reads": 250}]
 
 
 def exhaustive_small(rng, depth):
@@ -733,8 +755,9 @@ def run(ctx, only_cases=None):
         cases += sweep_cases()
         cases += upgrade_cases()
         cases += torn_cases()
+        cases += incr_cases()
     timed = [c for c in cases if c["mode"] in ("mem", "redis", "both", "iso")]
-    conc = [c for c in cases if c["mode"] in ("conc", "sweep", "upgrade", "torn")]
+    conc = [c for c in cases if c["mode"] in ("conc", "sweep", "upgrade", "torn", "incr")]
     env = {"VERIF_C13_PAR": "96" if thorough else "72"}
     outs = vlib.run_harness(binary, timed, timeout=1500, env=env) if timed else []
     try:
@@ -794,7 +817,7 @@ def run(ctx, only_cases=None):
                 terms.append(case_value(1, flags, 10 ** 12, ops, [["ok"], ["ok"], ["ok"]] + o["obs"]))
                 tags.append(("lin", idx))
             continue
-        if c["mode"] == "torn":
+        if c["mode"] in ("torn", "incr"):
             continue
         if c["mode"] == "upgrade":
             if o["prop_ok"]:   # the sequential order the harness accepted, replayed through the Spec
@@ -893,7 +916,7 @@ def run(ctx, only_cases=None):
 
     # ---- coverage ----
     def nontrivial(c, o):
-        if c["mode"] in ("conc", "sweep", "upgrade", "torn"):
+        if c["mode"] in ("conc", "sweep", "upgrade", "torn", "incr"):
             return o.get("overlap", 0) > 0
         kinds = {x["op"] for x in c["ops"]}
         answers = {json.dumps(x[:1]) for x in o["obs"]}
@@ -944,6 +967,7 @@ def run(ctx, only_cases=None):
             "concurrent_cases": sum(1 for c in conc if c["mode"] == "conc"),
             "cleanup_sweep_cases": sum(1 for c in conc if c["mode"] == "sweep"),
             "cleanup_sweep_cases_write_issued_while_sweep_held_the_mutex": sum(1 for c, o in zip(conc, couts) if c["mode"] == "sweep" and o.get("overlap")),
+            "concurrent_increments_of_one_existing_counter": {c["backend"]: o["obs"][0][1] for c, o in zip(conc, couts) if c["mode"] == "incr" and o.get("obs")},
             "large_value_reader_vs_in_place_writer_cases": sum(1 for c in conc if c["mode"] == "torn"),
             "large_value_snapshots_checked_against_the_writers_invariant": sum(o["obs"][0][1] for c, o in zip(conc, couts) if c["mode"] == "torn" and o.get("obs")),
             "reader_upgrade_vs_writer_cases": sum(1 for c in conc if c["mode"] == "upgrade"),
